@@ -167,6 +167,7 @@ class _StreamInitResource:
                     schema=e.schema,
                     server_id=self._app._server.server_id,
                     preamble=e.preamble,
+                    body=e.body,
                 )
                 return
             resp.content_type = _ARROW_CONTENT_TYPE
@@ -204,6 +205,7 @@ class _ExchangeResource:
                     schema=e.schema,
                     server_id=self._app._server.server_id,
                     preamble=e.preamble,
+                    body=e.body,
                 )
                 return
             resp.content_type = _ARROW_CONTENT_TYPE
